@@ -215,6 +215,10 @@ func NewStore(ctx context.Context, cfg StoreConfig) (*Store, error) {
 			s.logf("WARNING: cache is not valid; discarding it")
 			clear(s.active.m) // reset
 		}
+		if s.active.m == nil {
+			// The JSON document "null" decodes to a nil map; treat it as empty.
+			s.active.m = make(map[string]*cachedSecret)
+		}
 	}
 
 	// If there are any configured secrets that weren't cached, stub them in.
